@@ -840,6 +840,11 @@ func nilnessRec(v ssa.Value, b *ssa.BasicBlock, seen map[ssa.Value]bool) nilStat
 			case "fmt.Errorf", "errors.New":
 				return nonNil
 			}
+			// a helper of the package that dresses an error up (`wrapErr("phase", err)`): every one of its
+			// returns is a fresh error
+			if alwaysFreshError(f, 0) {
+				return nonNil
+			}
 		}
 	case *ssa.UnOp:
 		if x.Op == token.MUL {
@@ -1113,4 +1118,33 @@ func (p *Program) instrPos(in ssa.Instruction) string {
 		return p.Pos(in.Parent().Pos())
 	}
 	return "-"
+}
+
+// alwaysFreshError: f has a single error result and every return hands back fmt.Errorf / errors.New (or
+// the result of another such helper).
+func alwaysFreshError(f *ssa.Function, depth int) bool {
+	if f == nil || len(f.Blocks) == 0 || depth > 2 || f.Pkg == nil || !strings.HasPrefix(f.Pkg.Pkg.Path(), zapPkgPath) {
+		return false
+	}
+	res := f.Signature.Results()
+	if res.Len() != 1 || !isErrorType(res.At(0).Type()) {
+		return false
+	}
+	n := 0
+	for _, ret := range returnsOf(f) {
+		call, ok := ret.Results[0].(*ssa.Call)
+		if !ok {
+			return false
+		}
+		g := call.Call.StaticCallee()
+		if g == nil {
+			return false
+		}
+		if s := g.String(); s == "fmt.Errorf" || s == "errors.New" || alwaysFreshError(g, depth+1) {
+			n++
+			continue
+		}
+		return false
+	}
+	return n > 0
 }
